@@ -105,6 +105,18 @@ module Nat =
     leb (S n0) m
  end
 
+(** val hd : 'a1 -> 'a1 list -> 'a1 **)
+
+let hd default = function
+| [] -> default
+| x :: _ -> x
+
+(** val hd_error : 'a1 list -> 'a1 option **)
+
+let hd_error = function
+| [] -> None
+| x :: _ -> Some x
+
 (** val nth : nat -> 'a1 list -> 'a1 -> 'a1 **)
 
 let rec nth n0 l default =
@@ -132,11 +144,24 @@ let rec rev = function
 | [] -> []
 | x :: l' -> app (rev l') (x :: [])
 
+(** val concat : 'a1 list list -> 'a1 list **)
+
+let rec concat = function
+| [] -> []
+| x :: l0 -> app x (concat l0)
+
 (** val map : ('a1 -> 'a2) -> 'a1 list -> 'a2 list **)
 
 let rec map f = function
 | [] -> []
 | a :: t -> (f a) :: (map f t)
+
+(** val fold_left : ('a1 -> 'a2 -> 'a1) -> 'a2 list -> 'a1 -> 'a1 **)
+
+let rec fold_left f l a0 =
+  match l with
+  | [] -> a0
+  | b :: t -> fold_left f t (f a0 b)
 
 (** val fold_right : ('a2 -> 'a1 -> 'a1) -> 'a1 -> 'a2 list -> 'a1 **)
 
@@ -149,6 +174,18 @@ let rec fold_right f a0 = function
 let rec existsb f = function
 | [] -> false
 | a :: l0 -> (||) (f a) (existsb f l0)
+
+(** val forallb : ('a1 -> bool) -> 'a1 list -> bool **)
+
+let rec forallb f = function
+| [] -> true
+| a :: l0 -> (&&) (f a) (forallb f l0)
+
+(** val find : ('a1 -> bool) -> 'a1 list -> 'a1 option **)
+
+let rec find f = function
+| [] -> None
+| x :: tl -> if f x then Some x else find f tl
 
 (** val firstn : nat -> 'a1 list -> 'a1 list **)
 
@@ -1575,27 +1612,30 @@ let rec map_res f = function
 | [] -> Ok []
 | x :: t -> bind (f x) (fun y -> bind (map_res f t) (fun r -> Ok (y :: r)))
 
+(** val arglist_words : env -> st -> ptr -> bool -> word option list res **)
+
+let arglist_words e s val0 = function
+| true ->
+  bind (cstr_at e val0) (fun v ->
+    let len = num_words v in
+    fill_array (add len (S O)) (map (fun k -> get_word (S k) v) (seq O len)))
+| false ->
+  let len = sub e.e_argc s.st_i in
+  bind
+    (map_res (fun k ->
+      match k with
+      | O -> bind (cstr_at e val0) (fun v -> Ok (Some v))
+      | S _ ->
+        bind (argv_get s.st_argv (add k s.st_i)) (fun a ->
+          match a with
+          | Some sid -> bind (cstr_at e (sid, O)) (fun v -> Ok (Some v))
+          | None -> Fault Null_deref)) (seq O len)) (fun ws ->
+    fill_array (add (sub e.e_argc s.st_i) (S O)) ws)
+
 (** val handle_arglist : env -> opt -> st -> ptr -> bool -> store res **)
 
 let handle_arglist e o s val0 hasequal =
-  bind
-    (if hasequal
-     then bind (cstr_at e val0) (fun v ->
-            let len = num_words v in
-            fill_array (add len (S O))
-              (map (fun k -> get_word (S k) v) (seq O len)))
-     else let len = sub e.e_argc s.st_i in
-          bind
-            (map_res (fun k ->
-              match k with
-              | O -> bind (cstr_at e val0) (fun v -> Ok (Some v))
-              | S _ ->
-                bind (argv_get s.st_argv (add k s.st_i)) (fun a ->
-                  match a with
-                  | Some sid ->
-                    bind (cstr_at e (sid, O)) (fun v -> Ok (Some v))
-                  | None -> Fault Null_deref)) (seq O len)) (fun ws ->
-            fill_array (add (sub e.e_argc s.st_i) (S O)) ws)) (fun ws ->
+  bind (arglist_words e s val0 hasequal) (fun ws ->
     bind (slot_upd s.st_sto.sl o.o_slot (fun _ -> Some ws)) (fun l -> Ok
       (set_sl s.st_sto l)))
 
@@ -1687,6 +1727,49 @@ let dispatch e rec0 s p o islong hasequal val0 =
                              else finish s
                         else finish s)
 
+(** val consume_value :
+    env -> st -> ptr -> nat option -> ptr option -> (st * ptr) res **)
+
+let consume_value e s p nxt val0 =
+  if (&&) (is_some val0) (optptr_eqb val0 (arg_ptr nxt))
+  then bind (cstr_at e p) (fun rest -> Ok ((set_i s (S s.st_i)), ((fst p),
+         (add (snd p) (length rest)))))
+  else Ok (s, p)
+
+(** val find_value :
+    env -> ptr -> nat option -> bool -> (ptr option * bool) res **)
+
+let find_value e p nxt = function
+| true ->
+  bind (cstr_at e p) (fun name ->
+    match index_eq name with
+    | Some k -> Ok ((Some ((fst p), (add (add (snd p) k) (S O)))), true)
+    | None -> Ok ((arg_ptr nxt), false))
+| false ->
+  bind (getc e ((fst p), (S (snd p)))) (fun c ->
+    if Z.eqb c Z0
+    then Ok ((arg_ptr nxt), false)
+    else Ok ((Some ((fst p), (S (snd p)))), false))
+
+(** val with_value :
+    env -> (st -> ptr option -> outcome res) -> st -> ptr -> opt -> nat
+    option -> bool -> bool -> ptr option -> outcome res **)
+
+let with_value e rec0 s p o nxt islong hasequal val0 =
+  bind (consume_value e s p nxt val0) (fun x ->
+    let (s0, p0) = x in
+    if needs_value o
+    then (match val0 with
+          | Some _ ->
+            if is_some o.o_slot
+            then dispatch e rec0 s0 p0 o islong hasequal val0
+            else next_loop e rec0 s0 p0 islong val0
+          | None ->
+            check_bad e s0 (fun s1 -> next_loop e rec0 s1 p0 islong val0))
+    else if (&&) (is_abstract o) (negb (is_some o.o_slot))
+         then next_loop e rec0 s0 p0 islong val0
+         else dispatch e rec0 s0 p0 o islong hasequal val0)
+
 (** val after_find :
     env -> (st -> ptr option -> outcome res) -> st -> ptr -> nat -> bool ->
     outcome res **)
@@ -1694,51 +1777,38 @@ let dispatch e rec0 s p o islong hasequal val0 =
 let after_find e rec0 s p j islong =
   bind (clear_arg e s) (fun s0 ->
     bind (argv_get s0.st_argv (S s0.st_i)) (fun nxt ->
-      bind
-        (if islong
-         then bind (cstr_at e p) (fun name ->
-                match index_eq name with
-                | Some k ->
-                  Ok ((Some ((fst p), (add (add (snd p) k) (S O)))), true)
-                | None -> Ok ((arg_ptr nxt), false))
-         else bind (getc e ((fst p), (S (snd p)))) (fun c ->
-                if Z.eqb c Z0
-                then Ok ((arg_ptr nxt), false)
-                else Ok ((Some ((fst p), (S (snd p)))), false))) (fun x ->
+      bind (find_value e p nxt islong) (fun x ->
         let (val0, hasequal) = x in
         bind (tbl_get e j) (fun o ->
-          let cont = fun val1 s1 ->
-            bind
-              (if (&&) (is_some val1) (optptr_eqb val1 (arg_ptr nxt))
-               then bind (cstr_at e p) (fun rest -> Ok
-                      ((set_i s1 (S s1.st_i)), ((fst p),
-                      (add (snd p) (length rest)))))
-               else Ok (s1, p)) (fun x0 ->
-              let (s2, p0) = x0 in
-              if needs_value o
-              then (match val1 with
-                    | Some _ ->
-                      if is_some o.o_slot
-                      then dispatch e rec0 s2 p0 o islong hasequal val1
-                      else next_loop e rec0 s2 p0 islong val1
-                    | None ->
-                      check_bad e s2 (fun s3 ->
-                        next_loop e rec0 s3 p0 islong val1))
-              else if (&&) (is_abstract o) (negb (is_some o.o_slot))
-                   then next_loop e rec0 s2 p0 islong val1
-                   else dispatch e rec0 s2 p0 o islong hasequal val1)
-          in
-          (match val0 with
-           | Some v ->
-             bind (cstr_at e v) (fun vs ->
-               if (&&) (is_boolean o)
-                    ((||) (negb islong) (negb (is_boolean_value vs)))
-               then cont None s0
-               else if is_abstract o
-                    then is_valid_option e vs s0 (fun valid s1 ->
-                           if valid then cont None s1 else cont val0 s1)
-                    else cont val0 s0)
-           | None -> cont None s0)))))
+          match val0 with
+          | Some v ->
+            bind (cstr_at e v) (fun vs ->
+              if (&&) (is_boolean o)
+                   ((||) (negb islong) (negb (is_boolean_value vs)))
+              then with_value e rec0 s0 p o nxt islong hasequal None
+              else if is_abstract o
+                   then is_valid_option e vs s0 (fun valid s1 ->
+                          with_value e rec0 s1 p o nxt islong hasequal
+                            (if valid then None else val0))
+                   else if (&&) (negb (needs_value o)) (negb (is_boolean o))
+                        then with_value e rec0 s0 p o nxt islong hasequal None
+                        else with_value e rec0 s0 p o nxt islong hasequal val0)
+          | None -> with_value e rec0 s0 p o nxt islong hasequal None))))
+
+(** val lookup :
+    env -> (st -> ptr option -> outcome res) -> st -> ptr -> outcome res **)
+
+let lookup e rec0 s p =
+  bind (getc e p) (fun c ->
+    if Z.eqb c (Zpos (XI (XO (XI (XI (XO XH))))))
+    then let p0 = ((fst p), (S (snd p))) in
+         bind (cstr_at e p0) (fun name ->
+           match find_long e.e_tbl name with
+           | Some j -> after_find e rec0 s p0 j true
+           | None -> check_bad e s (next_arg rec0))
+    else (match find_short e.e_tbl c with
+          | Some j -> after_find e rec0 s p j false
+          | None -> check_bad e s (fun s0 -> next_letter e rec0 s0 p)))
 
 (** val step :
     env -> (st -> ptr option -> outcome res) -> st -> ptr option -> outcome
@@ -1750,19 +1820,6 @@ let step e rec0 s cur =
   else (match cur with
         | Some p ->
           bind (argv_get s.st_argv s.st_i) (fun ai ->
-            let lookup = fun p0 ->
-              bind (getc e p0) (fun c ->
-                if Z.eqb c (Zpos (XI (XO (XI (XI (XO XH))))))
-                then let p1 = ((fst p0), (S (snd p0))) in
-                     bind (cstr_at e p1) (fun name ->
-                       match find_long e.e_tbl name with
-                       | Some j -> after_find e rec0 s p1 j true
-                       | None -> check_bad e s (next_arg rec0))
-                else (match find_short e.e_tbl c with
-                      | Some j -> after_find e rec0 s p0 j false
-                      | None ->
-                        check_bad e s (fun s0 -> next_letter e rec0 s0 p0)))
-            in
             if optptr_eqb (Some p) (arg_ptr ai)
             then bind (getc e p) (fun c ->
                    if negb (Z.eqb c (Zpos (XI (XO (XI (XI (XO XH)))))))
@@ -1770,8 +1827,8 @@ let step e rec0 s cur =
                    else bind (getc e ((fst p), (S (snd p)))) (fun c1 ->
                           if Z.eqb c1 Z0
                           then next_arg rec0 s
-                          else lookup ((fst p), (S (snd p)))))
-            else lookup p)
+                          else lookup e rec0 s ((fst p), (S (snd p)))))
+            else lookup e rec0 s p)
         | None -> Ok (Done (e.e_pre, s)))
 
 (** val loop : nat -> env -> st -> ptr option -> outcome res **)
@@ -1851,3 +1908,308 @@ let init_argv argc =
 let init_st argc sto bad =
   { st_i = (S O); st_argv = (init_argv argc); st_sto = sto; st_bad = bad;
     st_helps = O; st_nbad = O }
+
+type optref =
+| ByShort of z
+| ByLong of word
+
+type spelling =
+| ShortFlag of z
+| Bundle of z list
+| ShortAttached of z * word
+| ShortSep of z * word
+| LongFlag of word
+| LongEq of word * word
+| LongSep of word * word
+| BoolWord of word * word
+| ArgListRest of optref * word list
+| Word of word
+
+(** val ref_arg : optref -> word **)
+
+let ref_arg = function
+| ByShort x -> (Zpos (XI (XO (XI (XI (XO XH)))))) :: (x :: [])
+| ByLong l ->
+  (Zpos (XI (XO (XI (XI (XO XH)))))) :: ((Zpos (XI (XO (XI (XI (XO
+    XH)))))) :: l)
+
+(** val render_one : spelling -> word list **)
+
+let render_one = function
+| ShortFlag x -> ((Zpos (XI (XO (XI (XI (XO XH)))))) :: (x :: [])) :: []
+| Bundle xs -> ((Zpos (XI (XO (XI (XI (XO XH)))))) :: xs) :: []
+| ShortAttached (x, v) ->
+  ((Zpos (XI (XO (XI (XI (XO XH)))))) :: (x :: v)) :: []
+| ShortSep (x, v) ->
+  ((Zpos (XI (XO (XI (XI (XO XH)))))) :: (x :: [])) :: (v :: [])
+| LongFlag l ->
+  ((Zpos (XI (XO (XI (XI (XO XH)))))) :: ((Zpos (XI (XO (XI (XI (XO
+    XH)))))) :: l)) :: []
+| LongEq (l, v) ->
+  ((Zpos (XI (XO (XI (XI (XO XH)))))) :: ((Zpos (XI (XO (XI (XI (XO
+    XH)))))) :: (app l ((Zpos (XI (XO (XI (XI (XI XH)))))) :: v)))) :: []
+| LongSep (l, v) ->
+  ((Zpos (XI (XO (XI (XI (XO XH)))))) :: ((Zpos (XI (XO (XI (XI (XO
+    XH)))))) :: l)) :: (v :: [])
+| BoolWord (l, w) ->
+  ((Zpos (XI (XO (XI (XI (XO XH)))))) :: ((Zpos (XI (XO (XI (XI (XO
+    XH)))))) :: l)) :: (w :: [])
+| ArgListRest (r, ws) -> (ref_arg r) :: ws
+| Word w -> w :: []
+
+(** val render : spelling list -> word list **)
+
+let render sps =
+  concat (map render_one sps)
+
+type kind =
+| KBool
+| KStr
+| KInt
+| KList
+| KAbs
+| KNone
+
+(** val kind_of : opt -> kind **)
+
+let kind_of o =
+  if is_boolean o
+  then KBool
+  else if is_string o
+       then KStr
+       else if is_integer o
+            then KInt
+            else if is_arglist o
+                 then KList
+                 else if is_abstract o then KAbs else KNone
+
+(** val find_opt : opt list -> optref -> opt option **)
+
+let find_opt tbl = function
+| ByShort x -> find (fun o -> Z.eqb o.o_short x) tbl
+| ByLong l -> find (fun o -> streq_ci o.o_long l) tbl
+
+(** val put : 'a1 list -> nat option -> ('a1 -> 'a1) -> 'a1 list **)
+
+let put l slot f =
+  match slot with
+  | Some k -> (match nth_error l k with
+               | Some v -> upd l k (f v)
+               | None -> l)
+  | None -> l
+
+(** val split_words : word -> word option list **)
+
+let split_words v =
+  map (fun k -> get_word (S k) v) (seq O (num_words v))
+
+type optarg =
+| AFlag
+| AVal of word
+| ARest of word list
+
+(** val assign : bool -> opt -> optarg -> store -> store **)
+
+let assign pre o a sto =
+  if negb (eqb pre (is_preparse o))
+  then sto
+  else (match kind_of o with
+        | KBool ->
+          (match a with
+           | AFlag -> set_sb sto (put sto.sb o.o_slot (or_mask o))
+           | AVal v ->
+             set_sb sto
+               (put sto.sb o.o_slot
+                 (if istrue v then or_mask o else clr_mask o))
+           | ARest _ -> sto)
+        | KStr ->
+          (match a with
+           | AVal v -> set_ss sto (put sto.ss o.o_slot (fun _ -> Some v))
+           | _ -> sto)
+        | KInt ->
+          (match a with
+           | AVal v ->
+             set_si sto (put sto.si o.o_slot (fun _ -> to_int (strtol0 v)))
+           | _ -> sto)
+        | KList ->
+          (match a with
+           | AFlag -> sto
+           | AVal v ->
+             set_sl sto (put sto.sl o.o_slot (fun _ -> Some (split_words v)))
+           | ARest ws ->
+             set_sl sto
+               (put sto.sl o.o_slot (fun _ -> Some
+                 (map (fun x -> Some x) ws))))
+        | KAbs ->
+          (match a with
+           | AVal v ->
+             (match o.o_slot with
+              | Some k -> set_sa sto (app sto.sa ((k, (Some v)) :: []))
+              | None -> sto)
+           | _ -> sto)
+        | KNone -> sto)
+
+(** val assign_ref :
+    bool -> opt list -> optref -> optarg -> store -> store **)
+
+let assign_ref pre tbl r a sto =
+  match find_opt tbl r with
+  | Some o -> assign pre o a sto
+  | None -> sto
+
+(** val ideal_one :
+    bool -> opt list -> (store * word list) -> spelling -> store * word list **)
+
+let ideal_one pre tbl acc sp =
+  let (sto, ws) = acc in
+  (match sp with
+   | ShortFlag x -> ((assign_ref pre tbl (ByShort x) AFlag sto), ws)
+   | Bundle xs ->
+     ((fold_left (fun s x -> assign_ref pre tbl (ByShort x) AFlag s) xs sto),
+       ws)
+   | ShortAttached (x, v) ->
+     ((assign_ref pre tbl (ByShort x) (AVal v) sto), ws)
+   | ShortSep (x, v) -> ((assign_ref pre tbl (ByShort x) (AVal v) sto), ws)
+   | LongFlag l -> ((assign_ref pre tbl (ByLong l) AFlag sto), ws)
+   | LongEq (l, v) -> ((assign_ref pre tbl (ByLong l) (AVal v) sto), ws)
+   | LongSep (l, v) -> ((assign_ref pre tbl (ByLong l) (AVal v) sto), ws)
+   | BoolWord (l, v) -> ((assign_ref pre tbl (ByLong l) (AVal v) sto), ws)
+   | ArgListRest (r, rest) -> ((assign_ref pre tbl r (ARest rest) sto), ws)
+   | Word w -> (sto, (app ws (w :: []))))
+
+(** val ideal :
+    bool -> opt list -> spelling list -> store -> store * word list **)
+
+let ideal pre tbl sps sto =
+  fold_left (ideal_one pre tbl) sps (sto, [])
+
+(** val nz_word : word -> bool **)
+
+let nz_word w =
+  forallb (fun c -> negb (Z.eqb c Z0)) w
+
+(** val no_eq : word -> bool **)
+
+let no_eq w =
+  forallb (fun c -> negb (Z.eqb c (Zpos (XI (XO (XI (XI (XI XH)))))))) w
+
+(** val letter_ok_b : z -> bool **)
+
+let letter_ok_b x =
+  (&&) (negb (Z.eqb x Z0)) (negb (Z.eqb x (Zpos (XI (XO (XI (XI (XO XH))))))))
+
+(** val flag_kind : opt -> bool **)
+
+let flag_kind o =
+  (&&) (negb (needs_value o)) (negb (is_abstract o))
+
+(** val value_kind : opt -> word -> bool **)
+
+let value_kind o v =
+  (&&) (negb (is_boolean o))
+    ((||)
+      ((&&) ((&&) (needs_value o) ((||) (is_string o) (is_integer o)))
+        (is_some o.o_slot))
+      ((&&)
+        ((&&) ((&&) (negb (needs_value o)) (is_abstract o))
+          (is_some o.o_slot))
+        (negb (Z.eqb (hd Z0 v) (Zpos (XI (XO (XI (XI (XO XH))))))))))
+
+(** val list_kind : opt -> bool **)
+
+let list_kind o =
+  (&&)
+    ((&&)
+      ((&&) ((&&) (negb (is_boolean o)) (negb (is_string o)))
+        (negb (is_integer o))) (is_arglist o)) (is_some o.o_slot)
+
+(** val bool_kind : opt -> bool **)
+
+let bool_kind o =
+  (&&) ((&&) (is_boolean o) (negb (needs_value o))) (negb (is_abstract o))
+
+(** val opt_is : opt list -> optref -> (opt -> bool) -> bool **)
+
+let opt_is tbl r p =
+  match find_opt tbl r with
+  | Some o -> p o
+  | None -> false
+
+(** val name_ok : word -> bool **)
+
+let name_ok l =
+  (&&) (nz_word l) (no_eq l)
+
+(** val sp_ok : opt list -> spelling -> word option -> bool **)
+
+let sp_ok tbl sp next =
+  match sp with
+  | ShortFlag x -> (&&) (letter_ok_b x) (opt_is tbl (ByShort x) flag_kind)
+  | Bundle xs ->
+    (&&) (negb (match xs with
+                | [] -> true
+                | _ :: _ -> false))
+      (forallb (fun x ->
+        (&&) (letter_ok_b x) (opt_is tbl (ByShort x) flag_kind)) xs)
+  | ShortAttached (x, v) ->
+    (&&)
+      ((&&) ((&&) (letter_ok_b x) (nz_word v))
+        (negb (match v with
+               | [] -> true
+               | _ :: _ -> false)))
+      (opt_is tbl (ByShort x) (fun o -> value_kind o v))
+  | ShortSep (x, v) ->
+    (&&) ((&&) (letter_ok_b x) (nz_word v))
+      (opt_is tbl (ByShort x) (fun o -> value_kind o v))
+  | LongFlag l ->
+    (&&) ((&&) (name_ok l) (opt_is tbl (ByLong l) flag_kind))
+      ((||) (negb (opt_is tbl (ByLong l) is_boolean))
+        (match next with
+         | Some w -> negb (is_boolean_value w)
+         | None -> true))
+  | LongEq (l, v) ->
+    (&&) ((&&) (name_ok l) (nz_word v))
+      ((||)
+        ((||) (opt_is tbl (ByLong l) (fun o -> value_kind o v))
+          ((&&) (opt_is tbl (ByLong l) bool_kind) (is_boolean_value v)))
+        (opt_is tbl (ByLong l) list_kind))
+  | LongSep (l, v) ->
+    (&&) ((&&) (name_ok l) (nz_word v))
+      (opt_is tbl (ByLong l) (fun o -> value_kind o v))
+  | BoolWord (l, w) ->
+    (&&)
+      ((&&) ((&&) (name_ok l) (nz_word w)) (opt_is tbl (ByLong l) bool_kind))
+      (is_boolean_value w)
+  | ArgListRest (r, ws) ->
+    (&&)
+      ((&&)
+        ((&&)
+          ((&&)
+            (match r with
+             | ByShort x -> letter_ok_b x
+             | ByLong l -> name_ok l) (opt_is tbl r list_kind))
+          (negb (match ws with
+                 | [] -> true
+                 | _ :: _ -> false))) (forallb nz_word ws))
+      (match next with
+       | Some _ -> false
+       | None -> true)
+  | Word w ->
+    (&&) (nz_word w)
+      ((||) (negb (Z.eqb (hd Z0 w) (Zpos (XI (XO (XI (XI (XO XH))))))))
+        (match w with
+         | [] -> false
+         | _ :: l -> (match l with
+                      | [] -> true
+                      | _ :: _ -> false)))
+
+(** val sps_ok : opt list -> spelling list -> bool **)
+
+let rec sps_ok tbl = function
+| [] -> true
+| sp :: rest -> (&&) (sp_ok tbl sp (hd_error (render rest))) (sps_ok tbl rest)
+
+(** val names_ok : opt list -> bool **)
+
+let names_ok tbl =
+  forallb (fun o -> name_ok o.o_long) tbl
